@@ -98,7 +98,8 @@ def run(ctx, rep):
             for e, info in dom.edges.items():
                 if e == (cls, hm, cls, m):
                     holders |= info['holders']
-            # one finding per function in which the second request is made: a new route to the same hang is a new finding
+            # one finding per route (the first function the holder calls on the way to the second request): a new route to
+            # the same hang is a new finding
             by_req = {}
             for s_ in ss:
                 by_req.setdefault(s_[1], []).append(s_)
@@ -106,7 +107,7 @@ def run(ctx, rep):
                 key = 'C07.1:self:%s(%s)@%s->%s@%s' % (cls, hm, '+'.join(sorted(holders)), m, req)
                 rep.ob('C07.1', 'self:%s(%s)->%s@%s' % (cls, hm, m, req), False, sl[0][2])
                 rep.violation('C07.1', key, sl[0][0],
-                              'a task holding %s(%s) requests %s(%s) on the same device in %s: certain hang; path %s' % (
+                              'a task holding %s(%s) requests %s(%s) on the same device by way of %s: certain hang; path %s' % (
                                   cls, hm, cls, m, req, sl[0][2]), {'path': sl[0][2]})
 
     # ---------------------------------------------------------------- C07.2
